@@ -10,7 +10,8 @@ CONSTANTS Layouts_, Vals_
 MC_Meaning ==
   [tok \in {"gg1", "lw1", "shaped"} |->
      CASE tok = "gg1" -> [gg |-> << <<"a", "#">> >>, lw |-> <<>>]
-       [] tok = "lw1" -> [gg |-> <<>>, lw |-> << [k |-> w, v |-> "v1"], [k |-> b, v |-> "v2"] >>]
+       \* one willed key lies inside the buried sub tree: grave goods first, last wills second
+       [] tok = "lw1" -> [gg |-> <<>>, lw |-> << [k |-> w, v |-> "v1"], [k |-> ab, v |-> "v2"] >>]
        [] tok = "shaped" -> [gg |-> <<>>, lw |-> <<>>, cas |-> [v |-> "v1", n |-> 2]]]
 
 MC_Alphabet ==
